@@ -336,14 +336,33 @@ def extra(rep, tier, rng):
         nobj = int(nobj[0][1:])
         objs = [po[(dl, "obj", i + 1)] for i in range(nobj)]
         ops = []
+        # atom-group features that stand for data built while the group is parsed (a fitting group, an index of the engine's
+        # group table): the library switches them on only together with that data
+        import re as _re
+        agtxt = open(os.path.join(cvbuild.LEAN, "CvModel", "Gen", "Deps.lean")).read()
+        agm = _re.search(r"def agFeatures : List FeatureDecl := \[(.*?)\n\]", agtxt, flags=_re.S)
+        agnames = _re.findall(r'name := "([^"]*)"', agm.group(1)) if agm else []
+        tied = set(i for i, nm in enumerate(agnames) if nm in ("f_ag_fitting_group", "f_ag_scalable", "f_ag_scalable_com"))
         for j in range(nops):
             oi = r2.randint(0, nobj - 1)
             nf = len_feats(objs[oi])
-            ops.append(("d.enable" if r2.rand() < 0.55 else "d.disable", oi, r2.randint(0, nf - 1)))
+            cls = int(objs[oi][0][1:])
+            op = "d.enable" if r2.rand() < 0.55 else "d.disable"
+            fi = r2.randint(0, nf - 1)
+            if op == "d.enable" and cls == 3 and fi in tied:
+                op = "d.disable"      # (switching one of those on from outside is not a call the library can make)
+            ops.append((op, oi, fi))
         L2 = L + ["%s %d %d" % o for o in ops]
         f2 = os.path.join(work, "p2.txt"); open(f2, "w").write("\n".join(L2) + "\n")
-        o2 = subprocess.run([exe, f2], stdout=subprocess.PIPE, stderr=subprocess.DEVNULL, text=True).stdout
+        r2_ = subprocess.run([exe, f2], stdout=subprocess.PIPE, stderr=subprocess.DEVNULL, text=True)
+        o2 = r2_.stdout
         p2, _ = cvlib.parse_out(o2)
+        if r2_.returncode != 0:
+            done = max([l for (l, tag, occ) in p2 if tag == "nobj"] + [dl]) - dl
+            rep.violation("the library process died (status %d) while enabling / disabling features of live objects, at operation %d: %s %d %d"
+                          % ((r2_.returncode, done + 1) + ops[min(done, len(ops) - 1)]), "\n".join(L2[:dl + done + 1]) + "\n",
+                          "deps_crash_%d" % k, found_input=True)
+            continue
         # model replay: each op applied to the snapshot the implementation had before it
         ML = []
         snaps = []
